@@ -303,6 +303,10 @@ def _to_int(expr, arg, out_typ):
     assert out_typ.bits % 8 == 0
     _check_bytes(expr, arg, out_typ, 32)
 
+    if arg.typ == AddressT() and out_typ.is_signed:
+        # (also for address literals, before the literal shortcut below)
+        _FAIL(arg.typ, out_typ, expr)
+
     if isinstance(expr, vy_ast.Constant):
         return _literal_int(expr, arg.typ, out_typ)
 
